@@ -16,7 +16,8 @@ func init() {
 			"(new-entry-drops-conflicts) every call of (*index.Index).Add in package git is preceded on every path by a call of a function that removes the entries that are a leading directory of the new name or lie below it (two prefix tests against name+\"/\", one in each direction): " +
 			"the index held `a` and `a/x` together and the committed tree had a blob and a tree under one name (fixed bd49cc3); " +
 			"(missing-covers-not-a-directory) the test that lets Worktree.Remove pass over a file that is not there accepts ENOTDIR beside not-exist (fixed 4d18a92); " +
-			"(remove-cleans-empty-parents) after Worktree.Remove has removed a single file, the success return is reached only through a call that removes emptied leading directories, as for RemoveGlob and directories (fixed 4e1855c). " +
+			"(remove-cleans-empty-parents) after Worktree.Remove has removed a single file, the success return is reached only through a call that removes emptied leading directories, as for RemoveGlob and directories (fixed 4e1855c); (move-carries-entry) Worktree.Move makes the destination entry of the source's entry and its static closure does not reach the stat refresh doUpdateFileToIndex — " +
+			"refreshing paired the old blob with stat data matching the new content, so a file modified before the move showed as unmodified (fixed e6be7cb). " +
 			"Not decided: the entries and trees produced (values), glob semantics, Move with a modified source, Clean's treatment of files below a tracked file turned directory (git keeps them as 'killed' files), modes and stat data.",
 		Assumptions: []string{},
 		Run:         runC28,
@@ -147,6 +148,8 @@ func runC28(c *Ctx) {
 			"a missing file is ENOENT or ENOTDIR"))
 	}
 
+	checkMoveCarriesEntry(c, "move-carries-entry")
+
 	// ---- remove-cleans-empty-parents
 	const r4 = "remove-cleans-empty-parents"
 	if fi := c.MustFunc(r4, "git.(*Worktree).Remove"); fi != nil {
@@ -193,6 +196,87 @@ func runC28(c *Ctx) {
 				"the emptied leading directories are removed before the index is written"))
 		}
 	}
+}
+
+// checkMoveCarriesEntry (C28): git mv renames the index entry and leaves its hash and stat data alone, so a file that was
+// modified before the move still shows as modified afterwards. Building the destination entry from the old hash and the
+// file's current stat data makes the modified file look unchanged against a hash that is not its content. Decided: the
+// static closure of Worktree.Move does not reach doUpdateFileToIndex (the stat refresh), and the entry removed for the
+// source is read again after the rename (it is what the destination entry is made of).
+func checkMoveCarriesEntry(c *Ctx, rule string) {
+	p := c.P
+	fi := c.MustFunc(rule, "git.(*Worktree).Move")
+	if fi == nil {
+		return
+	}
+	c.Analysed(fi)
+	info := fi.Pkg.TypesInfo
+	refresh := p.Func("git.(*Worktree).doUpdateFileToIndex")
+	if refresh == nil {
+		c.Unresolved(rule, "git.(*Worktree).doUpdateFileToIndex", fi.Decl.Pos(), "the stat refresh of an index entry was not found under this name")
+		return
+	}
+	reaches := false
+	for _, cf := range p.staticClosure([]*FuncInfo{fi}) {
+		if cf.Obj == refresh.Obj {
+			reaches = true
+		}
+	}
+	c.Check(!reaches, rule, fi.Name()+":no-stat-refresh", fi.Decl.Pos(), orStr(ifStr(reaches, "the destination entry is refreshed from the file's current stat data while keeping the old hash: a file modified before the move is reported unmodified afterwards, and commit records the old content"),
+		"the destination entry is not refreshed from the filesystem"))
+	// the removed entry is read after the rename
+	f := p.FlowOf(fi)
+	idxRemove := p.Func(idxShort + ".(*Index).Remove")
+	var entry types.Object
+	ast.Inspect(fi.Decl.Body, func(n ast.Node) bool {
+		as, ok := n.(*ast.AssignStmt)
+		if !ok || len(as.Rhs) != 1 || len(as.Lhs) != 2 || entry != nil {
+			return true
+		}
+		if call, ok := unparen(as.Rhs[0]).(*ast.CallExpr); ok && idxRemove != nil && Callee(info, call) == idxRemove.Obj {
+			entry = objOf(info, as.Lhs[0])
+		}
+		return true
+	})
+	renames := f.Locs(CallNode(false, func(call *ast.CallExpr) bool {
+		fn := Callee(info, call)
+		return fn != nil && fn.Name() == "Rename" // the worktree wrapper's or billy's
+	}))
+	if entry == nil || len(renames) == 0 {
+		c.Violate(rule, fi.Name()+":entry-carried-over", fi.Decl.Pos(), "the index entry removed for the source is not kept (or no rename found): the destination entry cannot carry the source's stat data")
+		return
+	}
+	used := false
+	for _, rl := range renames {
+		if f.Search(SearchOpts{Starts: []Loc{After(rl)}, Sink: func(n ast.Node) bool {
+			// a read of the whole entry (dereference or assignment of it), not just of its hash
+			found := false
+			ast.Inspect(n, func(m ast.Node) bool {
+				if st, ok := m.(*ast.StarExpr); ok && objOf(info, st.X) == entry {
+					found = true
+				}
+				if as, ok := m.(*ast.AssignStmt); ok {
+					for _, r := range as.Rhs {
+						if objOf(info, r) == entry {
+							found = true
+						}
+					}
+				}
+				if call, ok := m.(*ast.CallExpr); ok {
+					for _, a := range call.Args {
+						if objOf(info, a) == entry {
+							found = true
+						}
+					}
+				}
+				return !found
+			})
+			return found
+		}}) != nil {
+			used = true
+		}
+	}
+	c.Check(used, rule, fi.Name()+":entry-carried-over", fi.Decl.Pos(), orStr(ifStr(!used, "after the rename the source's entry is not read as a whole: the destination entry is not made of it"), "the destination entry is made of the source's entry"))
 }
 
 func hitPos(h *Hit) token.Pos {
